@@ -197,8 +197,9 @@ def run_os(unit, res, only=None):
     eps = EPS[e_idx] * sc
     off = lattice.offset_for(seed, m, sc)
     small = K >= 3 or (kind == "ell" and not thorough and alg_name != "PaVeBaGP-DE") or m == 3
-    alpha = [embed(t, sc, off) for t in alphabet(kind if m == 2 else "rect" if kind == "rect" else "ell", m, small=small)]
-    if kind == "ell" and m == 3:
+    if not (kind == "ell" and m == 3):
+        alpha = [embed(t, sc, off) for t in alphabet(kind, m, small=small)]
+    else:
         alpha = [("ell", np.array(c, float) * sc + off, np.eye(3) * sc * sc * s, r) for c, s, r in
                  (((0, 0, 0), 1.0, 1.0), ((1.5, 1.5, 1.5), 1.0, 0.5), ((3, 3, 3), 0.25, 1.0))]
     # Auer owns its widths: pick conf_contraction so that beta ~ 0.46 lattice units (decisions vary)
